@@ -177,7 +177,7 @@ def run_leg_sharded(pid, leg, build_, binpath, seed, tier, outdir):
             tag = f"{leg['name']}-{'-'.join(build_)}-s{shard}-a{attempt}"
             out = os.path.join(outdir, f"{tag}.json")
             prog = os.path.join(outdir, f"{tag}.progress")
-            for p in (out, prog):
+            for p in (out, prog, out + ".partial"):
                 if os.path.exists(p):
                     os.remove(p)
             cmd = [binpath, leg["cmd"], "--seed", str(seed), "--tier", tier, "--out", out, "--shard", str(shard),
